@@ -1,6 +1,7 @@
 import HmfVerif.Real.Tactics
 import HmfVerif.Gen.ExprHalofit
 import HmfVerif.Gen.ExprFlow
+import HmfVerif.Spec.Wiring
 /-!
 # C18 — HALOFIT leaves large scales untouched and is self-consistent
 `Gen.Halofit.halofit_pnl` is the regenerated closed form of the non-linear spectrum on the modelled
@@ -74,5 +75,9 @@ theorem halofit_takahashi_nonneg (opq : String → ℝ → ℝ) (ρ : String →
   simp only [decide_eq_true_eq, hlg, ht, show ((5:ℝ) * 10 ^ (-1:ℤ) < 1) by norm_num, if_true]
   generalize hNF : (1 * 10 ^ (0:ℤ) + ρ "cosmo.Onu0" / ρ "cosmo.Om0" * (977 * 10 ^ (-3:ℤ) - 18015 * 10 ^ (-3:ℤ) * (ρ "cosmo.Om0" - 3 * 10 ^ (-1:ℤ))) : ℝ) = nf at hfac ⊢
   split_ifs <;> positivity
+
+/-- C18: `nonlinear_delta_k` is HALOFIT applied to the object's own (k, Δ²_lin, z, cosmology, switch) — every argument wired,
+    none left at the callee's default -/
+theorem halofit_call_wiring : Gen.Flow.wiring.lookup "Transfer.nonlinear_delta_k" = some Spec.Wiring.halofit := by decide
 
 end Hmf.C18
